@@ -135,6 +135,32 @@ def signalling (s : St) : Bool := s == .started || s == .lockedIn
 def nextVersion (net : Net) (deps : List Dep) (n : Node) : Nat :=
   deps.foldl (fun v d => if signalling (state net d n) then v ||| mask d.bit else v) VB_TOP_BITS
 
+/-! ### queries and their observable answers -/
+/-- `state id n`: `deploymentState(n, id)` (also behind `ThresholdState`/`IsDeploymentActive` with
+    tip `n`); `version n`: `calcNextBlockVersion(n)`. -/
+inductive Query
+  | state (id : Nat) (n : Node)
+  | version (n : Node)
+
+def Query.node : Query → Node
+  | .state _ n => n
+  | .version n => n
+
+inductive Answer
+  | st (s : St)
+  | ver (v : Nat)
+  | unknownId
+  | panic
+  deriving DecidableEq, Repr
+
+/-- what the Spec answers, given the deployment table. -/
+def answer (net : Net) (deps : List Dep) : Query → Answer
+  | .state id n =>
+    match deps[id]? with
+    | some d => .st (state net d n)
+    | none => .unknownId
+  | .version n => .ver (nextVersion net deps n)
+
 /-! ### well-formed histories -/
 /-- median time past never decreases along the chain (implied by the timestamp rule). -/
 def mtpMono : Node → Bool
